@@ -361,20 +361,33 @@ Proof.
   apply bind_eq in E as [ex [c2 [ev2 [E2 E]]]]. apply (Hk ex _ _ _ _ _ E). clear E Hk.
   unfold retransmitAfterAKE in E2. apply bind_eq in E2 as [cg [c0 [ev0 [Eg E2]]]]. apply get_eq in Eg. injection Eg as -> -> ->.
   rewrite F3, N.eqb_refl in E2.
-  unfold maybeRetransmit in E2. apply bind_eq in E2 as [cg [c0 [ev0 [Eg E2]]]]. apply get_eq in Eg. injection Eg as -> -> ->.
+  apply bind_eq in E2 as [ws [cm [evm [Em E2]]]].
+  (* what follows the release of the queue (a heartbeat when MAC keys wait to be revealed) keeps the bound *)
+  assert (T : bj (LET c1 <- get IN
+                  match ws, oldMACKeys (c_keys c1) with
+                  | [], _ :: _ =>
+                      LET g <- genDataMsgWithFlag [] c_messageFlagIgnoreUnreadable [] false IN
+                      match g with
+                      | Ok (w, _) => updateLastSent now ;;; event c_MessageEventLogHeartbeatSent ;;; ret [w]
+                      | _ => ret []
+                      end
+                  | _, _ => ret ws
+                  end)) by bj_tac.
+  apply (T _ _ _ _ _ E2). clear T E2.
+  unfold maybeRetransmit in Em. apply bind_eq in Em as [cg [c0 [ev0 [Eg E2]]]]. apply get_eq in Eg. injection Eg as -> -> ->.
   apply if_eq in E2 as [[Hb E2]|[Hb E2]].
-  - apply ret_eq in E2. injection E2 as _ Ec _. subst c2. left. rewrite F1.
+  - apply ret_eq in E2. injection E2 as _ Ec _. subst cm. left. rewrite F1.
     destruct I as [I|[_ I2]]; [exact I|]. apply orb_true_iff in Hb as [Hb|Hb].
     + rewrite F1 in Hb. destruct (c_resendMsgs c); [cbn; lia | discriminate].
     + apply N.eqb_eq in Hb. rewrite F2 in Hb. contradiction.
   - cbv zeta in E2. apply bind_eq in E2 as [u1 [c3 [ev3 [E3 E2]]]]. unfold modify in E3. injection E3 as _ Ec3 _. subst c3.
     assert (J3 : J (c1 <| c_resendMsgs := [] |>)) by (left; cbn; lia).
     apply bind_eq in E2 as [r [c4 [ev4 [E4 E2]]]]. pose proof (bj_retransmit_loop _ _ _ _ _ _ _ _ E4 J3) as J4.
-    destruct r as [ws|].
+    destruct r as [ws'|].
     + apply bind_eq in E2 as [u5 [c5 [ev5 [E5 E2]]]]. pose proof (bj_emit_n _ _ _ _ _ _ _ E5 J4) as J5.
       apply bind_eq in E2 as [u6 [c6 [ev6 [E6 E2]]]]. pose proof (bj_updateLastSent _ _ _ _ _ _ E6 J5) as J6.
-      apply ret_eq in E2. injection E2 as _ Ec _. subst c2. exact J6.
-    + apply ret_eq in E2. injection E2 as _ Ec _. subst c2. exact J4.
+      apply ret_eq in E2. injection E2 as _ Ec _. subst cm. exact J6.
+    + apply ret_eq in E2. injection E2 as _ Ec _. subst cm. exact J4.
 Qed.
 
 Ltac bj_tac2 :=
